@@ -151,6 +151,7 @@ struct Link {
     from: String,
     to: String,
     open: bool,
+    dead: bool,    // the peer process ended: nothing is delivered any more, the dialling side may still hold the sender
     handshake: VecDeque<String>,
     cmd_rx: Receiver<String>,
     req: VecDeque<String>,
@@ -279,6 +280,7 @@ impl Sim {
                     Ok(Some(m)) => l.req.push_back(m),
                     Ok(None) => {
                         // every sender is gone: the member was removed
+                        l.dead = false;
                         if l.open && l.req.is_empty() && l.handshake.is_empty() {
                             l.open = false;
                             let (m, cv) = &*l.release;
@@ -326,6 +328,7 @@ impl Sim {
                 from: ls.tcp_addr.clone(),
                 to: ls.peer.clone(),
                 open: true,
+                dead: false,
                 handshake: hs,
                 cmd_rx: ls.command_receiver,
                 req: VecDeque::new(),
@@ -353,7 +356,7 @@ impl Sim {
                     }
                 }
             }
-            let have = self.links.iter().filter(|l| l.open).count();
+            let have = self.links.iter().filter(|l| l.open || l.dead).count();
             if have >= expected {
                 return Ok(());
             }
@@ -731,6 +734,33 @@ impl Sim {
                     let ti = self.idx(k).ok_or("node")?;
                     if self.nodes[ti].alive {
                         self.kill(k)?;
+                    }
+                    // threads of the old process that are parked in a wait loop are gone with it: they are
+                    // never resumed, and the connections they served are no longer busy
+                    let dead: Vec<usize> = self.tasks.iter().filter(|(_, kind)| match kind {
+                        TaskKind::Deliver(lid) => self.links[*lid].to == k,
+                        TaskKind::Reply(lid) => self.links[*lid].from == k,
+                        TaskKind::ClientCmd(j) => case["ops"][*j]["node"].as_str() == Some(k),
+                        TaskKind::Disconnect(node, _) => node == k,
+                    }).map(|(t, _)| *t).collect();
+                    for t in dead.iter() {
+                        self.tasks.remove(t);
+                        BATON.m.lock().unwrap().parked.remove(t);
+                        for l in self.links.iter_mut() {
+                            if l.ybusy == Some(*t) {
+                                l.ybusy = None;
+                            }
+                            if l.xbusy == Some(*t) {
+                                l.xbusy = None;
+                            }
+                        }
+                    }
+                    // connections other nodes had dialled to the old process ended with it
+                    for l in self.links.iter_mut() {
+                        if l.to == k && l.open {
+                            l.open = false;
+                            l.dead = true;
+                        }
                     }
                     let dir = self.nodes[ti].node.dir.clone();
                     let pid = op["pid"].as_u64().map(|p| p as u128).unwrap_or(self.nodes[ti].pid + 1000);
@@ -1127,7 +1157,34 @@ pub fn run_case(case: &J, workdir: &str, out: &mut dyn Write, n: usize) -> Resul
             sim.emit_state(&format!("client:{}", i));
             steps += 1;
             let mut nc = ops.len();
-            let q = run_until_quiet(&mut sim, &mut rng, &policy, &mut steps, &mut nc, ops.len(), case, false)?;
+            let mut q = run_until_quiet(&mut sim, &mut rng, &policy, &mut steps, &mut nc, ops.len(), case, false)?;
+            // start_inital_election of a restarted node: one second after its start a node that is
+            // still eligible runs an election
+            if let Some(k) = ops[i].get("restart").and_then(|k| k.as_str()) {
+                if let Some(ki) = sim.idx(k) {
+                    if q && sim.nodes[ki].alive && sim.nodes[ki].node.dbs.is_eligible() {
+                        let dbs = sim.nodes[ki].node.dbs.clone();
+                        let dir = sim.nodes[ki].node.dir.clone();
+                        let tid = sim.new_task(TaskKind::Disconnect(k.to_string(), "initial-election".to_string()));
+                        if sim.sched_pos < sim.schedule.len() && sim.schedule[sim.sched_pos] == format!("init:{}", k) {
+                            sim.sched_pos += 1;
+                        }
+                        sim.emit(json!({"ev":"initial_election","node":k}));
+                        let r = run_task(tid, dir, move || {
+                            nundb::election_ops::start_election(&dbs);
+                            json!({"cls":"ok"})
+                        })?;
+                        if let Some(r) = r {
+                            sim.finish_task(tid, r);
+                        } else {
+                            sim.emit(json!({"ev":"suspended","task":tid}));
+                        }
+                        sim.emit_state(&format!("init:{}", k));
+                        let mut nc2 = ops.len();
+                        q = run_until_quiet(&mut sim, &mut rng, &policy, &mut steps, &mut nc2, ops.len(), case, false)?;
+                    }
+                }
+            }
             all_quiet = all_quiet && q;
             let st = sim.snapshot_state();
             let sent = sim.sent - before;
